@@ -116,12 +116,23 @@ def reset_symbol_tables():
 
 
 def exc_site(exc):
-    """(exception type, function, file:line of the innermost frame inside fparser)."""
+    """(exception type, function, file) of the innermost frame inside fparser; for
+    SystemExit (raised by FortranReaderBase.error) the frame that CALLED error()."""
     tb = exc.__traceback__
-    site = None
+    frames = []
     while tb is not None:
         fn = tb.tb_frame.f_code.co_filename
         if "fparser" in fn:
-            site = (tb.tb_frame.f_code.co_name, os.path.basename(fn))
+            frames.append((tb.tb_frame.f_code.co_name, os.path.basename(fn)))
         tb = tb.tb_next
-    return (type(exc).__name__,) + (site or ("?", "?"))
+    if not frames:
+        return (type(exc).__name__, "?", "?")
+    site = frames[-1]
+    if isinstance(exc, SystemExit) and site[0] == "error" and len(frames) >= 2:
+        site = ("error<-" + frames[-2][0], frames[-2][1])
+    if type(exc).__name__ == "InternalError":
+        import re as _re
+        m = _re.search(r"class (\w+) method (\w+)", str(exc))
+        if m:
+            site = ("%s.%s" % (m.group(1), m.group(2)), site[1])
+    return (type(exc).__name__,) + site
